@@ -379,6 +379,11 @@ def run(tier):
             proto, s, layers, force, data, tls, hostile = q
             chk.count((w["_cfg"], proto, s, layers, force), nontrivial=hostile)
             ob = out["out"].encode("latin-1")
+            if out["exc"]:
+                found_concrete = True
+                chk.violation({"what": "the request crashed or did not finish: " + out["exc"], "protocol": proto, "selector": s,
+                               "request_latin1": gen.lat(data), "tls": tls, "handlers": w["_cfg"], "log": out["log"][-3:]},
+                              tag=f"request-failed:{proto}")
             # (1) no open/list/exec outside the root
             for cls, path in out["trace"] or []:
                 if cls == "stat":
